@@ -878,3 +878,32 @@ def rule_open_cache_init(ctx):
             ctx.holds("OPENINIT", key, f.where(), "every non-failing path that makes a file record live stores cache and dirty", nontrivial=True)
     ctx.floor("OPENINIT", 1, n, "(functions that make a file record live)")
     return n
+
+
+def rule_duplicate_refused_first(ctx):
+    """DUPFIRST (C12): HTPcreate is the one routine that enters a new tag/ref into the directory: it claims a free descriptor,
+    stores tag and ref in it, writes it (HTIupdate_dd) and registers it.  The registration refuses a pair that already exists —
+    after the descriptor has been claimed and written, and its error path tears down the tag's live ref table.  The pair must
+    therefore be looked up (DAget_elem on the tag's table) and refused *before* the first store into the descriptor."""
+    prog = ctx.prog
+    f = prog.func("HTPcreate")
+    key = "DUPFIRST:HTPcreate"
+    if f is None:
+        ctx.unrecognised("DUPFIRST", key, "-", "HTPcreate not found")
+        return 0
+    stores = [x[4] for _b, _i, _s, x in f.nodes(True) if x[0] == "asg" and mem_field(x[2]) in (("dd_t", "tag"), ("dd_t", "ref"))]
+    if not stores:
+        ctx.unrecognised("DUPFIRST", key, f.where(), "HTPcreate no longer stores tag/ref into a descriptor")
+        return 0
+    first = min(stores)
+    looked = []
+    for b in f.blocks.values():
+        t = b.get("term")
+        if t and t.get("cond") is not None and any(c[1] in ("DAget_elem", "HDcheck_tagref") for c in calls_in(t["cond"], True)):
+            looked.append(t.get("l") or 0)
+    if looked and min(looked) < first:
+        ctx.holds("DUPFIRST", key, f.where(min(looked)), "an existing tag/ref is looked up and refused before the descriptor is claimed (line %d < %d)" % (min(looked), first), nontrivial=True)
+    else:
+        ctx.violated("DUPFIRST", key, f.where(first), "HTPcreate stores the new tag/ref into a descriptor (line %d) without having looked the pair up first: a duplicate is noticed only by the "
+                     "registration, after the descriptor was written, and the error path destroys the tag's live ref table" % first)
+    return 1
